@@ -339,11 +339,11 @@ end generic
 /-! ## connection with the unit-of-work model -/
 
 /-- the values `writeTable` stores -/
-def wvals (cfg : Cfg) (e : OpEntry) (cols : List (Option Nat)) : List Val :=
-  if cfg.nullDelete && e.op = .delete then cols.map (fun _ => none) else tableVals cols e.vals
+def wvals (cfg : Cfg) (e : OpEntry) (tc : Nat × List (Option Nat)) : List Val :=
+  if cfg.nullDelete && e.op = .delete then nullVals cfg tc.1 tc.2 e.vals else tableVals tc.2 e.vals
 
 def mkW (cfg : Cfg) (e : OpEntry) (tc : Nat × List (Option Nat)) : Wr TKey :=
-  { key := (tc.1, e.pk), op := e.op, vals := wvals cfg e tc.2,
+  { key := (tc.1, e.pk), op := e.op, vals := wvals cfg e tc,
     mods := if cfg.modTracker then tableFlags tc.2 e.changed (e.op = .delete) else [] }
 
 def opWrites (cfg : Cfg) (e : OpEntry) : List (Wr TKey) := (cfg.cls e.cls).tables.map (mkW cfg e)
